@@ -180,7 +180,9 @@ class Tie:
             return False
         code, ln, name, query, np, tys, enc, ren, hs, canon, spl = mv[1]
         d = L.parse_debug(o["dbg"])
-        got = (d["code"][1], d["len"], d["name"][1], d["query"][1], d["num_params"], d["param_types"])
+        dq = d["query"]
+        dq = bytes(dq) if isinstance(dq, list) else dq[1]         # Vec<u8> since a7561f2 (was String)
+        got = (d["code"][1], d["len"], d["name"][1], dq, d["num_params"], d["param_types"])
         want = (code, ln, bytes(name), bytes(query), np, tys)
         if got != want or bytes.fromhex(o["name"]) != bytes(name):
             self.bad("tie-broken", "Parse decoder fields differ: model %r, implementation %r" % (want, got), case)
@@ -253,14 +255,9 @@ class Tie:
             self.bad("tie-broken", "splice_name (Coq) differs from the Python reference on %s" % b.hex(), case)
             return False
         if want[0] == "ok" and ref is not None and want[1] != ref:
-            # only possible when portal/name are not valid UTF-8 (guard of c08_bind_rename_only_name_and_len)
-            if all(c < 128 for c in b[5:]):
-                self.bad("counterexample", "Bind::rename changed more than the statement name and the length on ASCII input %s -> %s (expected %s)"
-                         % (b.hex(), want[1].hex(), ref.hex()), case)
-                return False
-            if "bind-rename-nonutf8" not in self.findings or len(self.findings["bind-rename-nonutf8"][0]) > len(b.hex()):
-                self.findings["bind-rename-nonutf8"] = (b.hex(), m.decode(), want[1].hex(), ref.hex())
-            self.count("bind_rename:nonutf8-altered")
+            self.bad("counterexample", "Bind::rename changed more than the statement name and the length: %s -> %s (expected %s)"
+                     % (b.hex(), want[1].hex(), ref.hex()), case)
+            return False
         return True
 
     # -- Describe / Close
@@ -971,6 +968,75 @@ def wire_tie(run, quick, extra=()):
     return st
 
 
+def wire_nonutf8(run, wire):
+    """Non-UTF-8 statement names / portals / query texts on the wire with statement caching on (legitimate under client_encoding
+    LATIN1 / SQL_ASCII).  Model-free monitors: (M1) the Bind the backend receives is the client's Bind with only the statement
+    name and the length field changed; (M2) the same for Parse; (M3) two different query texts never share a PGCAT statement;
+    (M4) a client never receives another client's replies.  A failure is
+    a VIOLATION (regression of 15e9536 / a7561f2); the residual name-collision class prints the known F8-lossy-utf8 line."""
+    toml = W.make_toml(general={"connect_timeout": 4000}, pools={"db": {"opts": {"prepared_statements_cache_size": 4},
+                       "users": [{"username": "u", "password": "pw", "pool_size": 1}], "shards": [{"database": "db0", "servers": [["b0", "primary"]]}]}})
+
+    def conn(c): return {"op": "connect", "c": c, "params": {"user": "u", "database": "db"}, "password": "pw", "timeout_ms": 4000}
+    def send(c, frames): return {"op": "send", "c": c, "msgs": [{"raw": f.hex()} for f in frames]}
+    def recv(c, to=1500): return {"op": "recv", "c": c, "until": "Z", "timeout_ms": to, "label": "sync"}
+    SYNC, EXEC = L.frame(b"S", b""), L.frame(b"E", b"\0\0\0\0\0")
+    cases = []
+    for nm, portal in ((b"caf\xe9", b""), (b"\xe9" * 5, b""), (b"s1", b"p\xe9"), (b"\xff", b"\xfe\xfd")):
+        p, b = L.parse_msg(nm, b"SELECT 10", [10]), L.bind_msg(portal, nm, [], [], [])
+        if nm == b"\xe9" * 5:
+            b = L.frame(b"B", b[5:] + SYNC + SYNC)         # ten trailing bytes = two Sync frames: smuggled if the length is 10 short
+        ex = L.frame(b"E", portal + b"\0\0\0\0\0")
+        cases.append(("bind", nm, portal, p, b,
+                      [conn("c0"), conn("c1"), send("c0", [p, SYNC]), recv("c0"), send("c0", [b, ex, SYNC]), recv("c0"),
+                       send("c1", [L.frame(b"Q", b"SELECT 77\0")]), recv("c1")]))
+    q0, q1 = L.parse_msg(b"s1", b"SELECT '\xe9'", []), L.parse_msg(b"s1", b"SELECT '\xe8'", [])
+    bb = L.bind_msg(b"", b"s1", [], [], [])
+    cases.append(("query", b"s1", b"", q0, q1, [conn("c0"), conn("c1"), send("c0", [q0, bb, EXEC, SYNC]), recv("c0"), send("c1", [q1, bb, EXEC, SYNC]), recv("c1")]))
+    # residual known class: two NAMES of one client with the same lossy rendering
+    n0, n1 = L.parse_msg(b"\xe9", b"SELECT 10", [10]), L.parse_msg(b"\xe8", b"SELECT 11", [11])
+    cases.append(("names", b"\xe9", b"", n0, n1, [conn("c0"), send("c0", [n0, n1, SYNC]), recv("c0"),
+                                                  send("c0", [L.bind_msg(b"", b"\xe9", [], [], []), EXEC, SYNC]), recv("c0")]))
+    residual = []
+    res = W.run_scenarios(wire, [{"backends": [{"name": "b0"}], "toml": toml, "hex": True, "steps": st} for *_, st in cases], timeout=60)
+    bad = []
+    for (kind, nm, portal, m0, m1, _), r in zip(cases, res):
+        if "harness_error" in r:
+            run.broken.append("wire harness (non-UTF-8 scenarios): %s" % r["harness_error"])
+            continue
+        msgs = [(e["tag"], bytes.fromhex(e["detail"].get("raw") or "")) for e in r.get("events", []) if e.get("ev") == "msg"]
+        recvs = [(e["who"], e["outcome"], [f.get("t") for f in e["frames"]]) for e in r.get("events", []) if e.get("ev") == "recv" and e.get("label") == "sync"]
+        pnames = [raw[5:raw.index(b"\0", 5)] for t, raw in msgs if t == "P"]
+        if kind == "names":
+            rows = [f.get("cols") for e in r.get("events", []) if e.get("ev") == "recv" for f in e["frames"] if f.get("t") == "D"]
+            if not rows or rows[0][2] != "SELECT 10":
+                residual.append("statement names \\xe9 and \\xe8 of one client are keyed by the same lossy rendering: Bind \\xe9 ran %s (a direct connection: SELECT 10)" % (rows[0][2] if rows else "nothing"))
+            continue
+        if kind == "bind":
+            want_p = L.splice(m0, pnames[0] if pnames else b"PGCAT_0", 0, 0)
+            want_b = L.splice(m1, pnames[0] if pnames else b"PGCAT_0", 0, 1)
+            got_b = [raw for t, raw in msgs if t == "B"]
+            if [raw for t, raw in msgs if t == "P"][:1] != [want_p]:
+                bad.append("Parse named %r reached the backend as %s, the name/length splice is %s" % (nm, msgs[0][1].hex() if msgs else None, want_p.hex()))
+            if got_b[:1] != [want_b]:
+                bad.append("Bind (statement %r, portal %r) %s reached the backend as %s, the name/length splice is %s; backend then saw %s; replies %s"
+                           % (nm, portal, m1.hex(), got_b[0].hex() if got_b else None, want_b.hex(), [t for t, _ in msgs[2:]], recvs))
+            c1 = [x for x in recvs if x[0] == "c1"]
+            if c1 and (c1[0][1] != "ok" or "D" not in c1[0][2]):
+                bad.append("after it, another client's simple query on that server connection got %s (a direct connection: its own row)" % (c1[0],))
+        else:
+            sent = [raw for t, raw in msgs if t == "P"]
+            if len(sent) != 2 or len({raw[5:raw.index(b"\0", 5)] for raw in sent}) != 2:
+                bad.append("two clients prepared different texts %s / %s: the backend received %d Parse(s) %s — the texts were rewritten by from_utf8_lossy and share one cache entry"
+                           % (m0[8:-3].hex(), m1[8:-3].hex(), len(sent), [x.hex() for x in sent]))
+    if bad:
+        run.violation("counterexample", "statement caching with non-UTF-8 names / portals / query texts (repaired by 15e9536, a7561f2) differs from a direct connection again: "
+                      + " | ".join(bad)[:1500], {"input": {"scenarios": "props/c08.py wire_nonutf8"}, "failures": bad})
+    if residual:
+        run.known_finding("F8-lossy-utf8 residual: " + residual[0] + "; Parse with bytes after its parameter types is trimmed (codec leg)", key="F8-lossy-utf8")
+    return {"scenarios": len(cases), "failures": len(bad)}
+
+
 # ------------------------------------------------------------------------------------------------ check
 def check(run):
     quick = run.tier == "quick"
@@ -1038,6 +1104,10 @@ def check(run):
             if nm.startswith("F11") and not run.violations and nm in wt.get("witnesses_reproduced", []):
                 fid = F11[nm.split("-")[0]]
                 run.known_finding("%s confirmed on the wire (pgcat = model, differs from a direct connection): cache size %d, %s — %s" % (fid, k, prog_coq(ops), why.split(": ", 1)[-1][:260]), key=fid)
+    if wt and not run.violations:
+        okw, _, binsw = vlib.cargo_build(["wire"])
+        if okw:
+            wt["non_utf8_wire"] = wire_nonutf8(run, binsw["wire"])
     run.cov["layer2_wire"] = wt
     run.cov["layer2_model_level"] = l2
     run.cov["layer2_wire_scenarios"] = [{"name": w["name"], "cache_size": w["cache_size"], "servers": w["servers"], "ops": prog_coq(w["ops"]),
